@@ -21,7 +21,7 @@ class ClasswiseSubsetWrapper(KDSubset):
             # create indices from start/end index
             assert start_index is None or isinstance(start_index, int)
             assert end_index is None or isinstance(end_index, int)
-            end_index = end_index or len(dataset)
+            end_index = len(dataset) if end_index is None else end_index
             end_index = min(end_index, len(dataset))
             start_index = start_index or 0
             assert start_index <= end_index
@@ -39,7 +39,7 @@ class ClasswiseSubsetWrapper(KDSubset):
             assert start_percent is None or (isinstance(start_percent, (float, int)) and 0. <= start_percent <= 1.)
             assert end_percent is None or (isinstance(end_percent, (float, int)) and 0. <= end_percent <= 1.)
             start_percent = start_percent or 0.
-            end_percent = end_percent or 1.
+            end_percent = 1. if end_percent is None else end_percent
             assert start_percent <= end_percent
             for i in range(dataset.getdim_class()):
                 start_index = int(start_percent * counts[i])
